@@ -698,3 +698,75 @@ package stun
 //@   ensures result == nil && len(a.IP) == 4 ==> AppendedHdr(msg, attr, 8) && AddrHdr(msg, 1, xor16(a.Port, 0x2112)) && forall(j, 0, 4, NewValue(msg, 4+j) == xor8(old(a.IP[j]), cookie_tid(msg, j)))
 //@   ensures result == nil && len(a.IP) == 16 && old(isIPv4spec(a.IP)) ==> AppendedHdr(msg, attr, 8) && AddrHdr(msg, 1, xor16(a.Port, 0x2112)) && forall(j, 0, 4, NewValue(msg, 4+j) == xor8(old(a.IP[12+j]), cookie_tid(msg, j)))
 //@   ensures result == nil && len(a.IP) == 16 && !old(isIPv4spec(a.IP)) ==> AppendedHdr(msg, attr, 20) && AddrHdr(msg, 2, xor16(a.Port, 0x2112)) && forall(j, 0, 16, NewValue(msg, 4+j) == xor8(old(a.IP[j]), cookie_tid(msg, j)))
+
+//@ func XORMappedAddress.AddTo
+//@   safety C09 C06
+//@   props C09 C06 C03
+//@   requires m != nil && len(m.Raw) >= 20 + m.Length && Fits(m, 20) && region(a.IP) != region(m.Raw)
+//@   requires 0 <= a.Port && a.Port <= 65535
+//@   assigns m.Raw, m.Length, m.Attributes, mem(m.Raw), mem(m.Attributes)
+//@   allocates
+//@   ensures result == nil <==> (len(a.IP) == 4 || len(a.IP) == 16)
+//@   ensures result != nil ==> Unchanged(m)
+//@   ensures result == nil && len(a.IP) == 4 ==> AppendedHdr(m, 0x0020, 8) && AddrHdr(m, 1, xor16(a.Port, 0x2112)) && forall(j, 0, 4, NewValue(m, 4+j) == xor8(old(a.IP[j]), cookie_tid(m, j)))
+//@   ensures result == nil && len(a.IP) == 16 && !old(isIPv4spec(a.IP)) ==> AppendedHdr(m, 0x0020, 20) && AddrHdr(m, 2, xor16(a.Port, 0x2112)) && forall(j, 0, 16, NewValue(m, 4+j) == xor8(old(a.IP[j]), cookie_tid(m, j)))
+
+//@ define MappedAddrSetter(a, m, t) = (result == nil <==> (len(a.IP) == 4 || len(a.IP) == 16)) && (result != nil ==> Unchanged(m))
+//@   | && (result == nil && len(a.IP) == 4 ==> AppendedHdr(m, t, 8) && AddrHdr(m, 1, uint16(a.Port)) && forall(j, 0, 4, NewValue(m, 4+j) == old(a.IP[j])))
+//@   | && (result == nil && len(a.IP) == 16 && !old(isIPv4spec(a.IP)) ==> AppendedHdr(m, t, 20) && AddrHdr(m, 2, uint16(a.Port)) && forall(j, 0, 16, NewValue(m, 4+j) == old(a.IP[j])))
+
+//@ func (*MappedAddress).AddTo
+//@   safety C09 C06
+//@   props C09 C06 C03
+//@   requires a != nil && m != nil && len(m.Raw) >= 20 + m.Length && Fits(m, 20) && region(a.IP) != region(m.Raw)
+//@   assigns m.Raw, m.Length, m.Attributes, mem(m.Raw), mem(m.Attributes)
+//@   allocates
+//@   ensures MappedAddrSetter(a, m, 0x0001)
+//@ func (*AlternateServer).AddTo
+//@   safety C09 C06
+//@   props C09 C06 C03
+//@   requires s != nil && m != nil && len(m.Raw) >= 20 + m.Length && Fits(m, 20) && region(s.IP) != region(m.Raw)
+//@   assigns m.Raw, m.Length, m.Attributes, mem(m.Raw), mem(m.Attributes)
+//@   allocates
+//@   ensures MappedAddrSetter(s, m, 0x8023)
+//@ func (*ResponseOrigin).AddTo
+//@   safety C09 C06
+//@   props C09 C06 C03
+//@   requires o != nil && m != nil && len(m.Raw) >= 20 + m.Length && Fits(m, 20) && region(o.IP) != region(m.Raw)
+//@   assigns m.Raw, m.Length, m.Attributes, mem(m.Raw), mem(m.Attributes)
+//@   allocates
+//@   ensures MappedAddrSetter(o, m, 0x802b)
+//@ func (*OtherAddress).AddTo
+//@   safety C09 C06
+//@   props C09 C06 C03
+//@   requires o != nil && m != nil && len(m.Raw) >= 20 + m.Length && Fits(m, 20) && region(o.IP) != region(m.Raw)
+//@   assigns m.Raw, m.Length, m.Attributes, mem(m.Raw), mem(m.Attributes)
+//@   allocates
+//@   ensures MappedAddrSetter(o, m, 0x802C)
+
+//@ func ErrorCode.AddTo
+//@   safety C09 C06
+//@   props C09 C06 C03
+//@   requires m != nil && len(m.Raw) >= 20 + m.Length && Fits(m, 4 + len(errorReasons[c])) && region(errorReasons[c]) != region(m.Raw)
+//@   requires 0 <= c && c <= 25599
+//@   assigns m.Raw, m.Length, m.Attributes, mem(m.Raw), mem(m.Attributes)
+//@   allocates
+//@   ensures !haskey(errorReasons, c) ==> result != nil
+//@   ensures result != nil ==> Unchanged(m)
+//@   ensures result == nil ==> AppendedHdr(m, 0x0009, 4 + len(errorReasons[c])) && NewValue(m, 2) == c / 100 && NewValue(m, 3) == c % 100
+//@   ensures result == nil ==> forall(j, 0, len(errorReasons[c]), NewValue(m, 4 + j) == old(errorReasons[c][j]))
+
+// RFC 5389 section 15.9: UNKNOWN-ATTRIBUTES is a list of 16-bit attribute types.
+//@ func UnknownAttributes.AddTo
+//@   safety C09 C06
+//@   props C06 C03
+//@   requires m != nil && len(m.Raw) >= 20 + m.Length && Fits(m, 4 * len(a)) && region(a) != region(m.Raw)
+//@   assigns m.Raw, m.Length, m.Attributes, mem(m.Raw), mem(m.Attributes)
+//@   allocates
+//@   ensures result == nil && AppendedHdr(m, 0x000A, 2 * len(a))
+//@   ensures forall(k, 0, len(a), NewValue(m, 2*k) == a[k] / 256 && NewValue(m, 2*k + 1) == a[k] % 256)
+//@   loop 0
+//@     assigns mem(v)
+//@     invariant -1 <= rangeindex && len(v) == 2 * (rangeindex + 1) && fresh(v)
+//@     invariant forall(k, 0, rangeindex + 1, v[2*k] == a[k] / 256 && v[2*k + 1] == a[k] % 256)
+//@     decreases len(a) - rangeindex
